@@ -47,6 +47,18 @@ func scC17Keepalive(w *World, a Args, rng *rand.Rand) error {
 	step <- struct{}{}
 	time.Sleep(long / 2)
 	w.Release(1) // the long call ends
+	if ms := a.Int("stallwritems", 0); ms > 0 {
+		// a large response is being written to a peer that does not read for a while (longer than the 1 s the ping handler waits
+		// for the writer): pings keep arriving meanwhile; the link is healthy and must survive
+		pc := w.Proxy.Last()
+		pc.Stall(S2C, true)
+		w.Plan(9, &Plan{})
+		d9 := make(chan struct{})
+		go func() { A.Call(context.Background(), "big", 9, 8<<20); close(d9) }()
+		time.Sleep(time.Duration(ms) * time.Millisecond)
+		pc.Stall(S2C, false)
+		waitCh(d9, patience(5*time.Second))
+	}
 	// idle gap: nothing but keepalive traffic
 	time.Sleep(time.Duration(a.Float("idlex", 3) * float64(timeout)))
 	A.CallT("unary", 2, 2*time.Second)
